@@ -63,3 +63,7 @@ Theorem C18_custom_basis_refuted :
   | Ok A => hom_ok A | Err _ => true end = false.
 Proof. vm_compute. reflexivity. Qed.
 Print Assumptions C18_custom_basis_refuted.
+
+(* ---- source pins: the functions whose hand-written model carries the theorems above are still, textually (after
+   ast normalisation), the functions the model was validated against; an edit breaks Bridge/Pins_C18.v ---- *)
+From KV Require Bridge.Pins_C18.
